@@ -403,6 +403,31 @@ def substitute_rules(rep, repo, cmod):
                             'substitute: an instance output line must be driven from (node_map[l.driver], l.driver_pin), or from the next free output of the fork created for an output that is also read internally', node=iff)
     rep.floor('pin pairing sites in substitute', pairs, 5)
 
+    # guards of the four loops: what is done to a line / node is done exactly under the condition that makes it meaningful
+    from kvstatic.paths import guard_texts
+    llv = in_loop.target.elts[1].id if isinstance(in_loop.target, ast.Tuple) else 'll'
+    olv = out_loop.target.elts[1].id if isinstance(out_loop.target, ast.Tuple) else 'll'
+    nlv = node_loop.target.id if isinstance(node_loop.target, ast.Name) else 'n'
+
+    def guarded_by(st, body, must_hold, must_fail, what):
+        g = guard_texts(st, body)
+        pos = {t for t, pol in g if pol is True}
+        neg = {t for t, pol in g if pol is False}
+        ok = all(any(m == t for t in pos) for m in must_hold) and all(any(m == t for t in neg) for m in must_fail)
+        rep.ob('C10.sub-shape', f'{what}: {cz(st)[:50]}', ok)
+        if not ok:
+            rep.violate('C10.sub-shape', cmod, f, st, f'substitute: `{norm(st)[:80]}` must run exactly when {what} (conditions found: holding {sorted(pos)}, failing {sorted(neg)})', node=st)
+    for st in walk_no_nested_funcs(in_loop):
+        if isinstance(st, ast.Assign) and cz(st.targets[0]) in (f'{llv}.reader', f'{llv}.reader_pin') and not (isinstance(st.value, ast.Constant) and st.value.value is None):
+            guarded_by(st, in_loop.body, [], [f'{llv}isNone'], f'the instance pin is connected (`{llv} is None` fails)')
+    for st in walk_no_nested_funcs(out_loop):
+        if isinstance(st, ast.Assign) and cz(st.targets[0]) in (f'{olv}.driver', f'{olv}.driver_pin'):
+            guarded_by(st, out_loop.body, [], [f'{olv}isNone'], f'the instance pin is connected (`{olv} is None` fails)')
+        if isinstance(st, ast.Expr) and isinstance(st.value, ast.Call) and (call_name(st.value) or '').endswith('remove_dangling_nodes'):
+            guarded_by(st, out_loop.body, [f'{olv}isNone'], [], f'the instance leaves this output unconnected (`{olv} is None` holds)')
+    for st in walk_no_nested_funcs(node_loop):
+        if isinstance(st, ast.Assign) and cz(st.targets[0]) == f'node_map[{nlv}]' and isinstance(st.value, ast.Call) and call_name(st.value) == 'Node' and len(st.value.args) == 3:
+            guarded_by(st, node_loop.body, [f'{nlv}notinios', f'{nlv}!=designated_cell'], [], 'the implementation node is an internal cell other than the designated one')
     key_coverage(rep, repo, cmod, f, nodevar, implvar, node_loop, line_loop, in_loop, out_loop)
 
 
@@ -569,6 +594,14 @@ def depends(rep, repo):
     c09.swap_with_last(rep, cmod)
     c09.ctor_order(rep, cmod)
     c09.backrefs(rep, repo)
+    c09.dangling(rep, cmod)
+    # "library implementation circuits and pin tables" (techlib.py) are what substitute is given: the C19 rules are part of this check
+    from checks import c19
+    keep = (rep.explanation, rep.trusted, rep.assumptions, rep.exhaustive)
+    try:
+        c19.run(rep, repo)
+    finally:
+        rep.explanation, rep.trusted, rep.assumptions, rep.exhaustive = keep
 
 
 def thorough(rep, repo):
